@@ -289,24 +289,43 @@ def damage_job(job):
     nrec = len(res.tags.get("status", "recovered"))
     nun = len(res.tags.get("status", "unrecoverable"))
     return dict(viols=viols, rc=res.rc, recovered=nrec, unrec=nun, skipped=False,
-                sig=signature(L, c, spec, viols) if viols else None)
+                sig=signature(L, c, spec, viols, res.after) if viols else None)
 
 
-def signature(L, c, spec, viols):
-    """classify a violating case structurally (used to match the recorded known findings)"""
+def signature(L, c, spec, viols, after=None):
+    """classify a violating case structurally (used to match the recorded known findings).
+
+    C05/pasthash-length-mismatch: the wrong bytes fix produced for a CHG block with a unique past hash are the
+    bytes of the PREVIOUS occupant of that position (a block of another length, zero padded / cut to the new
+    block length), and the past hash is the hash of that previous occupant: check.c hashes the rebuilt bytes over
+    the new length, cannot match, and takes the stale data for new data."""
     sigs = []
     bs = c.block_size
     for v in viols:
         key = "C05/" + v["kind"]
         rel = v.get("file")
-        if rel and v["kind"] in ("wrong-bytes-not-reported", "recovered-with-wrong-bytes"):
+        if rel and after is not None and v["kind"] in ("wrong-bytes-not-reported", "recovered-with-wrong-bytes"):
             dn, sub = rel.split("/", 1)
             d = c.disks[dn.encode()]
             f = next((x for x in d.files if x.sub.decode(errors="surrogateescape") == sub), None)
-            if f is not None and f.blocks and all(st == C.CHG for st, _, _ in f.blocks):
-                # a never-synced (CHG) file rebuilt from parity and presented as recovered: the past-hash cases
-                data = L.after_bytes.get(rel) if hasattr(L, "after_bytes") else None
-                key = "C05/pasthash/chg-file-rebuilt-with-other-bytes"
+            e = after.get(rel)
+            if f is not None and e is not None and e[0] == "f" and e[3] is not None and c.hash_size == 16:
+                cands, _ = candidates(L, c, dn, f)
+                for i, (st, pos, h) in enumerate(f.blocks):
+                    if st != C.CHG or h in (b"\0" * 16, b"\xff" * 16):
+                        continue
+                    region = e[3][i * bs:(i + 1) * bs]
+                    if any(cd[i * bs:(i + 1) * bs] == region for cd in cands):
+                        continue        # this block is right
+                    for (vd, vp, vs, vm), datas in L.versions.items():
+                        if vd != dn:
+                            continue
+                        for data in datas:
+                            for jb in range(0, max(len(data), 1), bs):
+                                ob = data[jb:jb + bs]
+                                if len(ob) != len(region) and (ob + b"\0" * bs)[:len(region)] == region \
+                                        and P.block_hash(c, pos, ob) == h:
+                                    key = "C05/pasthash-length-mismatch"
         sigs.append(key)
     return sigs
 
